@@ -347,9 +347,10 @@ def srStep (d : DState) (toks : List String) : DState × String :=
     | some tid, some oid, some undone =>
       if d.sys.lock.isSome then (d, "blocked")
       -- the real undo undoes EVERY object of the transaction; this single-object op is only defined
-      -- for a transaction that wrote exactly this object (both sides skip it otherwise)
+      -- for a transaction that holds exactly ONE record, of this object (both sides skip it
+      -- otherwise; several records of one object are undone one by one)
       else if ((d.sys.hist ++ d.sys.base).filter (fun t => t.tid == undone)).any
-                (fun t => t.recs.isEmpty || t.recs.any (fun r => r.oid != oid)) then (d, "skipped")
+                (fun t => t.recs.length != 1 || t.recs.any (fun r => r.oid != oid)) then (d, "skipped")
       else
         let r := undoRecord (envOf d.classes) d.sys.kind d.sys.hist d.sys.base d.sys.cache oid undone
         let ct := (curK d.sys.kind d.sys.hist d.sys.base oid).getD 0
